@@ -83,7 +83,13 @@ class Oracle(simcheck.BaseOracle):
         self.ticks = 0
 
     def counted(self, market, strategy):
-        return [o for o in market.blotter.strategy_orders(strategy) if o.status is not None and o.status.name not in NOT_COUNTED]
+        """orders that are (or were) at the exchange: acknowledged ones, and - whatever their status says - every order
+        with a bet id (a refused request may have marked a sent order VIOLATION, recorded finding F2)"""
+        return [o for o in market.blotter.strategy_orders(strategy)
+                if o.status is not None and (o.status.name not in NOT_COUNTED or (o.bet_id is not None and o.status.name == "VIOLATION"))]
+
+    def f2_tainted(self, orders):
+        return any(o.status.name == "VIOLATION" and o.bet_id is not None for o in orders)
 
     def market_worst(self, market, strategy, extra=None):
         """brute force: the worst profit over every admissible set of winners"""
@@ -146,13 +152,14 @@ class Oracle(simcheck.BaseOracle):
             if st.max_order_exposure is not None and oe > frac(st.max_order_exposure) + Fraction(1, 10**6):
                 self.add("order-limit-exceeded", "order %d accepted with worst-case loss %s > max_order_exposure %s" % (order._vidx, float(oe), st.max_order_exposure))
             if st.max_selection_exposure is not None and side_now + oe > frac(st.max_selection_exposure) + sl:
-                self.add("selection-limit-exceeded-at-acceptance", "order %d accepted: selection worst case %s + %s > max_selection_exposure %s" % (
+                self.add("violation-marked-order-dropped-from-exposure" if self.f2_tainted(same) else "selection-limit-exceeded-at-acceptance", "order %d accepted: selection worst case %s + %s > max_selection_exposure %s" % (
                     order._vidx, float(side_now), float(oe), st.max_selection_exposure))
             if st.max_market_exposure is not None:
                 mw, os_ = self.market_worst(market, st, extra=order if order.status.name in NOT_COUNTED else None)
                 if -mw > frac(st.max_market_exposure) + slack(os_, n=2 * (len(os_) + 1)):
                     retried = any(x.name == "VIOLATION" for x in order.status_log[:-1])
-                    self.add("refused-order-placed-again-not-counted" if retried else "market-limit-exceeded-at-acceptance", "order %d accepted: market worst case %s > max_market_exposure %s" % (
+                    self.add("refused-order-placed-again-not-counted" if retried else
+                             "violation-marked-order-dropped-from-exposure" if self.f2_tainted(os_) else "market-limit-exceeded-at-acceptance", "order %d accepted: market worst case %s > max_market_exposure %s" % (
                         order._vidx, float(-mw), st.max_market_exposure))
         elif result.startswith("False:STRATEGY_EXPOSURE:"):
             self.refusals += 1
@@ -160,7 +167,7 @@ class Oracle(simcheck.BaseOracle):
             if which == "order" and not (st.max_order_exposure is not None and oe > frac(st.max_order_exposure) - Fraction(1, 10**6)):
                 self.add("refused-within-limit", "order %d refused for max_order_exposure %s with worst-case loss %s" % (order._vidx, st.max_order_exposure, float(oe)))
             if which == "selection" and not (st.max_selection_exposure is not None and side_now + oe > frac(st.max_selection_exposure) - sl):
-                self.add("refused-within-limit", "order %d refused for max_selection_exposure %s with selection worst case %s" % (
+                self.add("violation-marked-order-dropped-from-exposure" if self.f2_tainted(same) else "refused-within-limit", "order %d refused for max_selection_exposure %s with selection worst case %s" % (
                     order._vidx, st.max_selection_exposure, float(side_now + oe)))
 
     def after_update(self, run, mb):
@@ -179,7 +186,7 @@ class Oracle(simcheck.BaseOracle):
                 w, l = position(os_)
                 worst = max(-w, -l)
                 if worst > frac(st.max_selection_exposure) + slack(os_):
-                    self.add("selection-limit-exceeded", "strategy %d selection %s: worst-case loss %s > max_selection_exposure %s (orders %s)" % (
+                    self.add("violation-marked-order-dropped-from-exposure" if self.f2_tainted(os_) else "selection-limit-exceeded", "strategy %d selection %s: worst-case loss %s > max_selection_exposure %s (orders %s)" % (
                         sidx, k, float(worst), st.max_selection_exposure, [o._vidx for o in os_]))
 
     def tags(self, run):
